@@ -40,6 +40,14 @@ func shapeOK(v *big.Int, shape string) bool {
 
 func keyWithD(shape string) *sm2.PrivateKey {
 	c := sm2.P256Sm2()
+	if shape == "d_one" || shape == "d_max" {
+		d := big.NewInt(1)
+		if shape == "d_max" {
+			d = new(big.Int).Sub(c.Params().N, big.NewInt(2))
+		}
+		x, y := c.ScalarBaseMult(d.Bytes())
+		return &sm2.PrivateKey{PublicKey: sm2.PublicKey{Curve: c, X: x, Y: y}, D: d}
+	}
 	for {
 		b := make([]byte, 32)
 		rand.Read(b)
